@@ -1,6 +1,7 @@
 package props
 
 import (
+	"sync/atomic"
 	"fmt"
 	"math/rand/v2"
 	"runtime"
@@ -101,7 +102,7 @@ func c02Adaptive(r *mon.Run, jr *rand.Rand, slots []*c02slot, secret *big.Int, r
 					continue
 				}
 				r.Distinct(rec.shape, "adaptive-splice", desc, issig)
-				ok, pv, _ := verifyList(cloneList(list), pks, ctx, nonce, issig, nil)
+				ok, pv, _ := c02Verify(cloneList(list), pks, ctx, nonce, issig, nil)
 				r.Eval("adaptive-splice", outcome(ok, pv))
 				if ok {
 					r.Violation("C02/recorded-proof-accepted-in-new-session", fmt.Sprintf("a list built around a proof recorded in another session verifies (%s, issig=%v; %s)", desc, issig, rec.shape),
@@ -231,14 +232,14 @@ func runC02(r *mon.Run) {
 }
 
 func c02Session(r *mon.Run, jr *rand.Rand, s, s2 *session) {
-	ok, pv, _ := verifyList(cloneList(s.list), s.pks, s.ctx, s.nonce, s.issig, nil)
+	ok, pv, _ := c02Verify(cloneList(s.list), s.pks, s.ctx, s.nonce, s.issig, nil)
 	r.Eval("honest", outcome(ok, pv))
 	if !ok {
 		r.Sample(map[string]any{"honest_rejected": s.shape})
 		return
 	}
 	if rt, err := jsonRoundTripList(s.list); err == nil {
-		ok, pv, _ := verifyList(rt, s.pks, s.ctx, s.nonce, s.issig, nil)
+		ok, pv, _ := c02Verify(rt, s.pks, s.ctx, s.nonce, s.issig, nil)
 		r.Eval("honest-json", outcome(ok, pv))
 	}
 	if r.Evals()%40 < 2 {
@@ -258,8 +259,8 @@ func c02Session(r *mon.Run, jr *rand.Rand, s, s2 *session) {
 		for _, mode := range []string{"cold", "warm"} {
 			b1, b2 := cloneList(s.list), cloneList(s2.list)
 			if mode == "warm" {
-				ok1, _, _ := verifyList(b1, s.pks, s.ctx, s.nonce, s.issig, nil)
-				ok2, _, _ := verifyList(b2, s2.pks, s2.ctx, s2.nonce, s2.issig, nil)
+				ok1, _, _ := c02Verify(b1, s.pks, s.ctx, s.nonce, s.issig, nil)
+				ok2, _, _ := c02Verify(b2, s2.pks, s2.ctx, s2.nonce, s2.issig, nil)
 				if !ok1 || !ok2 {
 					r.Eval("warmup", "reject")
 					continue
@@ -273,7 +274,7 @@ func c02Session(r *mon.Run, jr *rand.Rand, s, s2 *session) {
 					list[k] = b2[i-n]
 				}
 			}
-			ok, pv, stack := verifyList(list, pks, ctx, nonce, issig, nil)
+			ok, pv, stack := c02Verify(list, pks, ctx, nonce, issig, nil)
 			fam := family
 			if mode == "warm" {
 				fam += "/warm"
@@ -457,7 +458,7 @@ func c02Session(r *mon.Run, jr *rand.Rand, s, s2 *session) {
 			}
 			desc := fmt.Sprintf("uncomputable copy of member %d inserted at position %d", src, pos)
 			r.Distinct(s.shape, "contribution-error", desc)
-			ok, pv, _ := verifyList(cloneList(pl), pks, s.ctx, s.nonce, s.issig, nil)
+			ok, pv, _ := c02Verify(cloneList(pl), pks, s.ctx, s.nonce, s.issig, nil)
 			r.Eval("contribution-error", outcome(ok, pv))
 			if ok {
 				r.Violation("C02/unbound-member-accepted", fmt.Sprintf("a list verifies although it contains a member whose challenge contribution cannot be computed (%s; %s)", desc, s.shape),
@@ -490,7 +491,7 @@ func c02Session(r *mon.Run, jr *rand.Rand, s, s2 *session) {
 				r.Eval("member-alone", outcome(ok, pv))
 				if !ok {
 					w := cloneList(s.list)
-					if okw, _, _ := verifyList(w, s.pks, s.ctx, s.nonce, s.issig, nil); okw {
+					if okw, _, _ := c02Verify(w, s.pks, s.ctx, s.nonce, s.issig, nil); okw {
 						ok, pv, _ = verifyD(s.pks[i], w[i].(*gabi.ProofD), v.ctx, v.nonce, v.issig)
 						r.Eval("member-alone/warm", outcome(ok, pv))
 					}
@@ -553,3 +554,26 @@ func permutations(n int) [][]int {
 	rec(nil, 0)
 	return out
 }
+
+// c02Verify verifies a list with the label argument in its three "no labels" forms - nil, an empty non-nil slice (what decoding
+// "[]" gives) and one empty label per member - on separate copies, and reports acceptance if ANY form accepts: the binding of a
+// list to its session must not depend on how the caller spells "no keyshare servers". Calls that pass labels are left alone.
+func c02Verify(l gabi.ProofList, pks []*gabikeys.PublicKey, ctx, nonce *big.Int, issig bool, kss []string) (ok bool, pv any, stack string) {
+	if kss != nil {
+		return verifyList(l, pks, ctx, nonce, issig, kss)
+	}
+	copies := []gabi.ProofList{cloneList(l), cloneList(l)}
+	ok, pv, stack = verifyList(l, pks, ctx, nonce, issig, nil)
+	if ok || pv != nil {
+		return
+	}
+	for i, form := range [][]string{{}, make([]string, len(l))} {
+		if ok2, pv2, stack2 := verifyList(copies[i], pks, ctx, nonce, issig, form); ok2 || pv2 != nil {
+			c02LabelForms.Add(1)
+			return ok2, pv2, stack2
+		}
+	}
+	return
+}
+
+var c02LabelForms atomic.Int64
